@@ -109,7 +109,7 @@ def undecodable(ty):
     return []
 
 
-SHAPES = [(1, 0), (0, 1), (1, 0, 1), (1, 1, 0), (0, 1, 1), (1, 0, 0), (1, 2, 1), (2, 1, 1), (1, 1, 2)]     # 1 populated / 0 register-less / 2 zero-sized areas, all adjacent
+SHAPES = [(0,), (0, 0), (1, 0), (0, 1), (1, 0, 1), (1, 1, 0), (0, 1, 1), (1, 0, 0), (1, 2, 1), (2, 1, 1), (1, 1, 2)]     # 1 populated / 0 register-less / 2 zero-sized areas, all adjacent; the first two: tables without any register
 
 
 def make_table(rnd, types, window=14, want_holes=True, shape=None):
